@@ -13,6 +13,40 @@ PROFILES = [
 N = {'quick': 3200, 'thorough': 400000}
 
 
+def align_growth(prog, e):
+    """True when the -c-only refusal is the known 'align padding grows under compression' case: the refused line has a
+    label-dependent operand (or is a transfer to a label), an `align N` lies between that line and the label it refers to, and the
+    value is out of range by no more than the padding those aligns can add."""
+    import re
+    from vlib import ir
+    ln = getattr(getattr(e, 'line', None), 'number', None)
+    msg = getattr(e, 'message', '') or ''
+    m = re.search(r'between .*?\((-?\d+)\) and .*?\((-?\d+)\): (-?\d+)\s*$', msg)
+    if ln is None or not m or not (1 <= ln <= len(prog.items)):
+        return False
+    lo, hi, v = int(m.group(1)), int(m.group(2)), int(m.group(3))
+    over = v - hi if v > hi else lo - v
+    if over <= 0:
+        return False
+    it = prog.items[ln - 1]
+    names = set()
+    vals = list(it.ops.values()) if it.kind == 'insn' else (list(it.ops) if it.kind == 'pseudo' else [])
+    for x in vals:
+        if isinstance(x, str):
+            names.add(x)
+        elif hasattr(x, 'labels'):
+            names |= x.labels()
+    if not names:
+        return False
+    pos = {x.name: i for i, x in enumerate(prog.items) if x.kind == 'label'}
+    room = 0
+    for n in names:
+        if n in pos:
+            a, b = sorted((ln - 1, pos[n]))
+            room = max(room, sum(x.n - 1 for x in prog.items[a:b + 1] if x.kind == 'align'))
+    return 0 < over <= room
+
+
 def judge(prog, res):
     a = _prog.get_asm()
     src = prog.text()
@@ -31,6 +65,8 @@ def judge(prog, res):
     if c[0] != 'ok':
         e = c[1]
         sig = 'only_with_c:%s' % progcheck.exc_sig(e)
+        if align_growth(prog, e):
+            sig = 'only_with_c:align_growth'
         line = getattr(getattr(e, 'line', None), 'contents', None)
         raise env.CaseFailure(sig, 'assembles without -c (%d bytes) but with -c: %s: %s%s' % (
             len(u[1]), type(e).__name__, str(e)[-300:], '\n  line: %r' % line if line else ''), progcheck.case_of(prog, True))
@@ -51,6 +87,7 @@ def run(tier):
                 'one must also be accepted with -c (any exception = violation, bucketed by exception type and innermost '
                 'bronzebeard frame). non-trivial = accepted program whose output changes under -c or that has a constant '
                 'shift amount or a label-dependent immediate; distinct by source')
+    progcheck.run_corpus(chk, PROP, judge)
     for i, prof in enumerate(PROFILES):
         progcheck.run_sharded(chk, PROP + ('' if i == 0 else '#%d' % i), prof, N[tier] // len(PROFILES), 'judge', __name__)
     _prog.check_vacuity(chk)
